@@ -456,7 +456,14 @@ impl BuiltInFunction {
                     format!("top vector index `{top}` could not be used to index (usize)")
                 })?;
 
-                Ok((Some(Primitive::Str(s[bottom..top].to_owned())), None))
+                let substring = s.get(bottom..top).with_context(|| {
+                    format!(
+                        "substring bounds {bottom}..{top} out of bounds or not on a character boundary (len {} bytes)",
+                        s.len()
+                    )
+                })?;
+
+                Ok((Some(Primitive::Str(substring.to_owned())), None))
             }
             Self::StrContains => {
                 let Some(Primitive::Str(s)) = arguments.first() else {
@@ -528,14 +535,18 @@ impl BuiltInFunction {
 
                 let mut result = original.clone();
 
-                result.insert_str(
-                    (*bottom).try_into().with_context(|| {
-                        format!(
-                            "string insertion index `{bottom}` could not be used to index (usize)"
-                        )
-                    })?,
-                    new,
-                );
+                let index: usize = (*bottom).try_into().with_context(|| {
+                    format!("string insertion index `{bottom}` could not be used to index (usize)")
+                })?;
+
+                if !result.is_char_boundary(index) {
+                    bail!(
+                        "insertion index {index} out of bounds or not on a character boundary (len {} bytes)",
+                        result.len()
+                    )
+                }
+
+                result.insert_str(index, new);
                 Ok((Some(Primitive::Str(result)), None))
             }
             Self::StrReplace => {
@@ -576,12 +587,21 @@ impl BuiltInFunction {
                     format!("string bottom index `{top}` could not be used to index (usize)")
                 })?;
 
-                let start = top - bottom + 1;
+                let (Some(head), Some(tail)) = (s.get(..bottom), s.get(top..)) else {
+                    bail!(
+                        "deletion bounds {bottom}..{top} out of bounds or not on a character boundary (len {} bytes)",
+                        s.len()
+                    )
+                };
 
-                let mut result = String::with_capacity(s.len() - start);
+                if bottom > top {
+                    bail!("deletion bounds {bottom}..{top} are reversed")
+                }
 
-                result.push_str(&s[..bottom]);
-                result.push_str(&s[top..]);
+                let mut result = String::with_capacity(head.len() + tail.len());
+
+                result.push_str(head);
+                result.push_str(tail);
 
                 Ok((Some(Primitive::Str(result)), None))
             }
@@ -764,11 +784,15 @@ impl BuiltInFunction {
                     ));
                 }
 
-                let (lhs, rhs) = s.split_at(
-                    (*mid)
-                        .try_into()
-                        .with_context(|| format!("`{mid}` is an invalid index (usize)"))?,
-                );
+                let mid: usize = (*mid)
+                    .try_into()
+                    .with_context(|| format!("`{mid}` is an invalid index (usize)"))?;
+
+                if !s.is_char_boundary(mid) {
+                    bail!("split index {mid} is not on a character boundary")
+                }
+
+                let (lhs, rhs) = s.split_at(mid);
 
                 Ok((
                     Some(vector![
